@@ -1,6 +1,6 @@
 """C17 — a field's configuration can be read back (get_backend / get_configuration chains on owning data, members on
 non-owning data), make_parameter_pack_for is positional, and a field rebuilt from the reported values is the original."""
-import collections, random
+import collections, random, re
 from fractions import Fraction as Fr
 from vlib import common as C
 from vlib.framework import Corr
@@ -47,7 +47,15 @@ def extra_cpp(stack, nested=False):
     for i, (l, T) in enumerate(zip(layers, names)):
         a, b = l.cfg_chain_cpp(T, own(i), view(i))
         o_stmts.append(f'  os << " ;"; {a}')
-        v_stmts.append(f'  os << " ;"; {b}')
+        # the non-owning data has no accessor: its data members are read by name. Should a member be renamed, the level is
+        # reported as not observable (`?`) instead of failing to compile -- the property speaks of the owning side only
+        mem = sorted(set(re.findall(re.escape(view(i)) + r"\.(m_\w+)", b)))
+        if mem:
+            req = " ".join(f"vb.{m};" for m in mem)     # a generic lambda makes the requires-expression dependent
+            v_stmts.append(f'  os << " ;"; [&](const auto & vb) {{ if constexpr (requires {{ {req} }}) {{ {b.replace(view(i) + ".", "vb.")} }} '
+                           f'else os << " ?"; }}({view(i)});')
+        else:
+            v_stmts.append(f'  os << " ;"; {b}')
     # arguments of make_parameter_pack_for: configuration_t rvalues, outermost first
     args, off = [], 0
     for l, T in zip(layers, names):
@@ -209,6 +217,9 @@ def fmt_pack(stack, wild=None):
     return " | ".join(" ".join(map(str, [l.cfg_ty()] + w)) for l, w in zip(stack.layers(), level_words(stack, wild)))
 
 
+HIDDEN = [0]
+
+
 def parse_chain(o, stack):
     """`o ; w… ; w… | v ; w… ; …` -> (owning levels, view levels) or None"""
     if o.startswith("CRASH") or "|" not in o:
@@ -217,8 +228,16 @@ def parse_chain(o, stack):
         a, b = o.split("|")
         if not a.strip().startswith("o") or not b.strip().startswith("v"):
             return None
-        lv = lambda s: [[int(t) for t in p.split()] for p in s.strip()[1:].split(";")[1:]]
-        return lv(a), lv(b)
+        lv = lambda s: [None if p.split() == ["?"] else [int(t) for t in p.split()] for p in s.strip()[1:].split(";")[1:]]
+        oa, vb = lv(a), lv(b)
+        if None in oa:
+            return None
+        if len(vb) == len(oa):      # a view level whose members could not be named: not observable, taken from the owning side
+            HIDDEN[0] += sum(1 for x in vb if x is None)
+            vb = [o if v is None else v for o, v in zip(oa, vb)]
+        elif None in vb:
+            return None
+        return oa, vb
     except ValueError:
         return None
 
@@ -349,6 +368,9 @@ def evaluate(ctx, items, cfgs):
                                f"configuration [| the field built by make_parameter_pack_for] = {o[:160]}, expected all equal to {wantb}", cj, impl=o,
                                model=wantb, oracle_fails=True, key={"kind": "cmp", "stack": s.desc()}, cfg=cfg)
     corr.violations.sort(key=lambda v: (not v["oracle_fails"], len(str(v["case"]["stack"]))))
+    if HIDDEN[0]:
+        corr.notes.append(f"{HIDDEN[0]} view levels could not be read (data members of the non-owning data not found under their "
+                          "names): compared on the owning side only")
     return corr
 
 
